@@ -14,7 +14,7 @@ META = {
     'not_decided': 'every numerical claim: that the totals equal the sums over the uncontracted interval sequence, that t_inf <= t_1, '
                    'that contraction options do not change the report (values of run-time data; no sound static argument in reach)',
     'assumptions': ['instrumentation entry points are called in a well-nested way'],
-    'technique': 'static analysis: who-may-write field rule + call dominance + sibling field-set agreement over LLVM IR',
+    'technique': 'static analysis: who-may-write field rule + call dominance + sibling field-set agreement + writer/reader (accumulator vs enumerator) agreement on edge kinds over LLVM IR',
 }
 INFO = 'dr_dag_node_info.'
 SUMMARY = ['t_1', 't_inf', 'logical_node_counts', 'logical_edge_counts']
@@ -29,6 +29,11 @@ def run(ctx):
             'is applied to the node being summarised, and no accumulation is reachable from a contraction')
     ctx.doc('C18.3', 'dr_accumulate_stats: fields added from a chain element x = fields added from a created child c = {t_1, '
             'logical_node_counts, logical_edge_counts, ...}; t_inf: += along the chain, max(.., chain + child) for children')
+    ctx.doc('C18.4', 'writer/reader agreement on edges by kind: every edge kind dr_pi_dag_enum_edges can emit for an uncontracted subgraph '
+            'is counted by dr_accumulate_stats for a contracted one and vice versa; kinds emitted once per create_task node are counted by '
+            'exactly 1 in the create_task case (the level at which the enumerator descends), successor edges by exactly 1 per chain '
+            'element of the kind that produces them and only when a successor exists; dr_pi_dag_count_edges_uncollapsed adds per create '
+            'the number of edges the enumerator emits per create')
     files = sorted(ctx.db['profiler'])
     ctx.prefetch([(f, 'vanilla', 'profiler') for f in files])
     ctx.unit = 'libdr'
@@ -100,7 +105,7 @@ def run(ctx):
             kind = None
             # the created child task hangs off the chain element through the anonymous union member (x->child);
             # chain elements are the loop-carried head/next pointer
-            if ri is not None and ri.op == 'load' and a.field(ri) == 'dr_dag_node.<anon>':
+            if ri is not None and ri.op == 'load' and a.field(ri) == 'dr_dag_node.child':
                 kind = 'c'
             elif ri is not None and (ri.op == 'phi' or (ri.op == 'load' and a.field(ri) in ('dr_dag_node.next', 'dr_dag_node_list.head'))):
                 kind = 'x'
@@ -155,6 +160,217 @@ def run(ctx):
            'the loop-carried candidate for the critical path is only ever combined with max (adding children\'s paths would make the '
            'critical path exceed the work)', loc=a.loc, detail=str(kinds))
     ctx.floor('C18.3', 12)
+    rule4_edges(ctx, m, a, s)
+
+
+# which kind of chain element is the source of each successor edge (dag_recorder_inl.h: the interval opened by
+# dr_return_from_create_task_ / dr_return_from_wait_tasks_ / dr_return_from_other_ gets this in_edge_kind)
+PRED = {'create_cont': 'create_task', 'wait_cont': 'section', 'other_cont': 'other'}
+
+
+def rule4_edges(ctx, m, a, s):
+    en = ctx.enumerators('dag_recorder.c', area='profiler')
+    EK = {k[len('dr_dag_edge_kind_'):]: v for k, v in en.items() if k.startswith('dr_dag_edge_kind_') and k != 'dr_dag_edge_kind_max'}
+    NK = {k[len('dr_dag_node_kind_'):]: v for k, v in en.items() if k.startswith('dr_dag_node_kind_')}
+    for need in ('end', 'create', 'create_cont', 'wait_cont', 'other_cont'):
+        ctx.need_enum(en, 'dr_dag_edge_kind_' + need)
+    for need in ('create_task', 'section', 'other'):
+        ctx.need_enum(en, 'dr_dag_node_kind_' + need)
+    ekn = {v: k for k, v in EK.items()}
+    nkn = {v: k for k, v in NK.items()}
+    # ---- accumulator: K -> [(node kind of the chain element, increment, store)]
+    sws = [i for i in a.order if i.op == 'switch' and isinstance(i.d.get('cond'), str) and a.get(a.strip(i.d['cond'])) is not None and
+           a.get(a.strip(i.d['cond'])).op == 'load' and a.field(a.get(a.strip(i.d['cond']))) == INFO + 'kind']
+    ctx.ob('C18.4', 'accumulator dispatches on the kind of the chain element', len(sws) == 1, 'switch (x->info.kind)', loc=a.loc)
+    acc = {}
+    if len(sws) == 1:
+        sw = sws[0]
+        xroot = a.ap(a.get(a.strip(sw.d['cond'])).ops[0]).root
+        for st in a.stores_to(INFO + 'logical_edge_counts'):
+            ap = a.ap(st.ops[1])
+            if not same_value(a, ap.root, s):
+                continue
+            idx = [x for x in ap.steps if x[0] == 'i']
+            if not idx or not isinstance(idx[-1][1], int):
+                continue            # the element-wise loops (zeroing, += x / += c) are rule C18.3
+            K = idx[-1][1]
+            av = lib.affine(a, st.ops[0])
+            lds = [k for k in av if k in a.insts and a.insts[k].op == 'load' and a.ap(a.insts[k].ops[0]).key() == ap.key()]
+            inc = None
+            if len(lds) == 1 and av[lds[0]] == 1:
+                rest = {k: c for k, c in av.items() if k != lds[0] and c != 0}
+                inc = rest.get('', 0) if set(rest) <= {''} else 'variable'
+                vt = [k for k in rest if k != '']
+                if len(vt) == 1 and rest[vt[0]] == 1 and rest.get('', 0) == 0 and vt[0] in a.insts and a.insts[vt[0]].op == 'load' and \
+                        a.field(a.insts[vt[0]]) == INFO + 'n_child_create_tasks' and same_value(a, a.ap(a.insts[vt[0]].ops[0]).root, s):
+                    inc = 'creates(s)'     # the node's own number of create_task elements, added once
+            cases = sorted(set(nkn.get(v, str(v)) for v, t in sw.d['cases'] if a.edge_dominates(sw.block.id, t, st)))
+            nxt = any(a.edge_dominates(br.block.id, nn, st) for l in a.loads_of('dr_dag_node.next')
+                      if a.strip(a.ap(l.ops[0]).root) == a.strip(xroot) for br, nn, nl in lib.null_tests(a, l.id))
+            acc.setdefault(ekn.get(K, str(K)), []).append((cases, inc, nxt, st))
+    # ---- enumerator
+    d = ctx.ssa('dr_dump.c', area='profiler')
+    e = ctx.need_fn(d, 'dr_pi_dag_enum_edges')
+    calls = call_sites(e, 'dr_pi_dag_add_edge')
+    ctx.ob('C18.4', 'enumerator emits edges', len(calls) >= 3, 'calls of dr_pi_dag_add_edge', loc=e.loc)
+    per_create, seq = {}, {}
+    for c in calls:
+        kinds = set()
+        karg = c.args[2]
+        if const_int(karg) is not None:
+            kinds.add(ekn.get(const_int(karg), str(const_int(karg))))
+        else:
+            ki = e.get(e.strip(karg)) if isinstance(karg, str) else None
+            if ki is not None and ki.op == 'load' and e.field(ki) == INFO + 'in_edge_kind':
+                for sw in [i for i in e.order if i.op == 'switch']:
+                    ci = e.get(e.strip(sw.d['cond'])) if isinstance(sw.d.get('cond'), str) else None
+                    if ci is not None and ci.op == 'load' and e.ap(ci.ops[0]).key() == e.ap(ki.ops[0]).key():
+                        for v, t in sw.d['cases']:
+                            if e.edge_dominates(sw.block.id, t, c):
+                                kinds.add(ekn.get(v, str(v)))
+        ctx.ob('C18.4', 'edge kind of enumerator call resolved', bool(kinds), 'constant kind, or in_edge_kind under a switch on it',
+               loc=c.loc, detail=expr_str(e, karg))
+        is_create = False
+        for ic in e.order:
+            if ic.op == 'icmp' and ic.pred == 'eq' and const_int(ic.ops[1]) == NK['create_task']:
+                li = e.get(e.strip(ic.ops[0])) if isinstance(ic.ops[0], str) else None
+                if li is not None and li.op == 'load' and e.field(li) == INFO + 'kind':
+                    for br in e.users(ic.id):
+                        if br.op == 'br' and 'cond' in br.d and e.edge_dominates(br.block.id, br.d['t'], c):
+                            is_create = True
+        for k in kinds:
+            (per_create if is_create else seq).setdefault(k, []).append(c)
+    emitted = set(per_create) | set(seq)
+    counted = set(acc)
+    for k in sorted(emitted | counted):
+        site = (per_create.get(k) or seq.get(k) or [None])[0]
+        loc = site.loc if site is not None else acc[k][0][3].loc
+        ctx.ob('C18.4', 'edge kind %s: emitted for uncontracted subgraphs <=> counted for contracted ones' % k,
+               k in emitted and k in counted,
+               'an edge kind handled on one side only makes its total depend on how much of the DAG is contracted', loc=loc,
+               detail='emitted by dr_pi_dag_enum_edges: %s; counted by dr_accumulate_stats: %s' % (k in emitted, k in counted))
+    for k, lst in sorted(acc.items()):
+        for cases, inc, nxt, st in lst:
+            bulk = inc == 'creates(s)' and k in per_create and not cases and lib.loop_containing(a, st) is None
+            ctx.ob('C18.4', 'count of %s edges grows by exactly one per edge' % k, inc == 1 or bulk,
+                   'one enumerated edge corresponds to one counted edge', loc=st.loc, detail='increment %s under case %s' % (inc, cases))
+            if k in per_create:
+                ctx.ob('C18.4', '%s edges are counted where the create is' % k, cases == ['create_task'] or bulk,
+                       'the enumerator emits this edge while descending into the section that holds the create_task node, so the '
+                       'section itself must carry the count (a contracted section inside an uncontracted one keeps it)',
+                       loc=st.loc, detail='counted under case %s' % cases)
+            elif k in PRED:
+                ctx.ob('C18.4', '%s edges are counted per %s element' % (k, PRED[k]), cases == [PRED[k]],
+                       'one successor edge per chain element of the kind that produces it', loc=st.loc, detail='counted under case %s' % cases)
+                if PRED[k] != 'create_task':
+                    ctx.ob('C18.4', '%s edge counted only when a successor exists' % k, nxt, 'x->next tested', loc=st.loc)
+    for k in sorted(seq):
+        ctx.ob('C18.4', 'successor edges are emitted with a successor kind (%s)' % k, k in PRED and k not in per_create,
+               'the edge between adjacent chain elements carries the kind of the element it leaves (an end edge here would be counted '
+               'twice by the reader and not at all by the accumulator)', loc=seq[k][0].loc)
+    for k in sorted(per_create):
+        ctx.ob('C18.4', 'one %s edge per create in the enumerator' % k, len(per_create[k]) == 1, 'per create_task node', loc=per_create[k][0].loc)
+    # the pre-pass that sizes the edge array
+    cnt = ctx.need_fn(d, 'dr_pi_dag_count_edges_uncollapsed')
+    adds = []
+    for ic in cnt.order:
+        if ic.op == 'icmp' and ic.pred == 'eq' and const_int(ic.ops[1]) == NK['create_task']:
+            for br in cnt.users(ic.id):
+                if br.op != 'br' or 'cond' not in br.d:
+                    continue
+                for x in cnt.order:
+                    if x.op == 'add' and const_int(x.ops[1]) is not None and cnt.edge_dominates(br.block.id, br.d['t'], x) and \
+                            lib.loop_containing(cnt, x) is not None and x.block.id == br.d['t']:
+                        adds.append(x)
+    n_per_create = sum(len(v) for v in per_create.values())
+    ctx.ob('C18.4', 'edge array sized for the per-create edges', len(adds) == 1 and const_int(adds[0].ops[1]) == n_per_create,
+           'dr_pi_dag_count_edges_uncollapsed adds, per create_task node, the number of edges dr_pi_dag_enum_edges emits per create',
+           loc=adds[0].loc if adds else cnt.loc, detail='adds %s, enumerator emits %d' % ([const_int(x.ops[1]) for x in adds], n_per_create))
+    # the contracted node must look to the enumerator like its first leaf: dr_pi_dag_node_first(x+1) is x+1 itself once contracted
+    iek = [st for st in a.stores_to(INFO + 'in_edge_kind') if same_value(a, a.ap(st.ops[1]).root, s)]
+    ctx.ob('C18.4', 'summary node takes an in-edge kind', len(iek) == 1, 's->info.in_edge_kind is set by the accumulation', loc=a.loc)
+    for st in iek:
+        li = a.get(a.strip(st.ops[0])) if isinstance(st.ops[0], str) else None
+        okf = li is not None and li.op == 'load' and a.field(li) == INFO + 'in_edge_kind'
+        if okf:
+            r = a.get(a.strip(a.ap(li.ops[0]).root))
+            okf = r is not None and r.op == 'call' and r.callee == 'dr_dag_node_list_first'
+            if okf:
+                okf = same_value(a, a.ap(r.args[0]).root, s)      # the list embedded in s (s->subgraphs)
+        ctx.ob('C18.4', 'in-edge kind of a summary node is that of its first element', okf,
+               'the enumerator classifies the edge into a subgraph by the in_edge_kind of its first leaf, or of the subgraph node itself '
+               'once contracted; the two must be the same value', loc=st.loc, detail=expr_str(a, st.ops[0]))
+    # reader: per-kind totals are sums over contracted nodes and explicit edges
+    g = ctx.ssa('gen_stat.c', area='profiler')
+    ce = ctx.need_fn(g, 'dr_calc_edges')
+    arr = [c for c in ce.calls() if c.callee == 'dr_malloc']
+    ctx.ob('C18.4', 'edge-count table allocated once in dr_calc_edges', len(arr) == 1, 'C_ = dr_malloc(...)', loc=ce.loc)
+    n_acc = 0
+    if len(arr) == 1:
+        for st in ce.order:
+            if st.op != 'store' or ce.strip(ce.ap(st.ops[1]).root) != arr[0].id:
+                continue
+            if const_int(st.ops[0]) == 0:
+                continue
+            av = lib.affine(ce, st.ops[0])
+            own = [k for k in av if k in ce.insts and ce.insts[k].op == 'load' and ce.ap(ce.insts[k].ops[0]).key() == ce.ap(st.ops[1]).key()]
+            okacc = len(own) == 1 and av[own[0]] == 1
+            n_acc += 1
+            src = [k for k in av if k in ce.insts and ce.insts[k].op == 'load' and ce.field(ce.insts[k]) == INFO + 'logical_edge_counts']
+            what = 'the logical edge counts of a contracted node' if src else 'one explicit edge'
+            ctx.ob('C18.4', 'dr_calc_edges adds %s to the running total' % what, okacc and (bool(src) or av.get('', 0) == 1),
+                   'totals by kind are sums over all contracted nodes plus the explicit edges (an assignment keeps only the last node)',
+                   loc=st.loc, detail=expr_str(ce, st.ops[0]))
+    ctx.ob('C18.4', 'dr_calc_edges accumulates from contracted nodes and explicit edges', n_acc >= 3, 'three accumulation sites', loc=ce.loc)
+    ctx.floor('C18.4', 22)
+    rule5_sections(ctx)
+
+
+OPENERS = {'dr_push_back_section': {'dr_task_ensure_section', 'dr_begin_section__'},
+           # only create and wait intervals lie inside a section that a later wait closes; 'other' and 'end' attach to whatever is active
+           'dr_task_ensure_section': {'dr_enter_create_task__', 'dr_enter_wait_tasks__', 'dr_enter_create_cilk_proc_task__'},
+           'dr_summarize_section_or_task': {'dr_return_from_wait_tasks__', 'dr_end_task__'}}
+ENTRY = {'create_task': ('dr_enter_create_task__', 'dr_return_from_create_task__', {'create_cont'}),
+         'wait_tasks': ('dr_enter_wait_tasks__', 'dr_return_from_wait_tasks__', {'wait_cont', 'end'}),
+         'other': ('dr_enter_other__', 'dr_return_from_other__', {'other_cont'})}
+
+
+def rule5_sections(ctx):
+    ctx.doc('C18.5', 'section typestate over the instrumentation entry points (dag_recorder_no_inl.c): sections are opened only by '
+            'dr_begin_section__ and, through dr_task_ensure_section, by the create/wait entry points; they are summarised only when a '
+            'wait returns or the task ends; each dr_enter_X__ closes its interval with node kind X and the matching dr_return_from_X__ '
+            'opens the next interval with the successor-edge kind the accumulator counts for X')
+    m = ctx.ssa('dag_recorder_no_inl.c', area='profiler')
+    en = ctx.enumerators('dag_recorder_no_inl.c', area='profiler')
+    for callee, allowed in sorted(OPENERS.items()):
+        ctx.need_fn(m, callee)
+        callers = sorted(set(fn.name for fn in m.functions.values() for c in fn.calls() if c.callee == callee))
+        ctx.ob('C18.5', 'callers of %s enumerated' % callee, bool(callers), 'call sites found', loc=m.functions[callee].loc)
+        for fn in m.functions.values():
+            for c in fn.calls():
+                if c.callee == callee:
+                    ctx.ob('C18.5', '%s may call %s' % (fn.name, callee), fn.name in allowed,
+                           'a section opened by an interval that no wait closes is never accumulated into the totals; summaries are '
+                           'taken exactly when a section or task closes', loc=c.loc)
+    for x, (enter, ret, kinds) in sorted(ENTRY.items()):
+        fe_, fr = ctx.need_fn(m, enter), ctx.need_fn(m, ret)
+        ends = call_sites(fe_, 'dr_end_interval_')
+        nk = ctx.need_enum(en, 'dr_dag_node_kind_' + x)
+        okk = len(ends) >= 1 and all(any(const_int(a_) == nk for a_ in c.args[1:]) for c in ends)
+        ctx.ob('C18.5', '%s closes an interval of kind %s' % (enter, x), okk, 'dr_end_interval_(..., kind)', loc=fe_.loc)
+        sts = fr.stores_to(INFO + 'in_edge_kind')
+        vals = set()
+        for st in sts:
+            for k in fr.sources(st.ops[0]):
+                try:
+                    vals.add(const_int(__import__('json').loads(k)) if k.startswith('{') else None)
+                except ValueError:
+                    vals.add(None)
+        want = set(ctx.need_enum(en, 'dr_dag_edge_kind_' + k) for k in kinds)
+        ctx.ob('C18.5', '%s opens the next interval with in-edge kind in %s' % (ret, sorted(kinds)), bool(sts) and vals == want,
+               'the kind recorded on the successor interval is the kind the accumulator counts for a %s element' % x, loc=fr.loc,
+               detail=str(sorted(str(v) for v in vals)))
+    ctx.floor('C18.5', 12)
 
 
 def deps(f, ref):
@@ -219,6 +435,27 @@ MUTANTS = [
      'edits': [(INL, "            s->info.t_1     += c->info.t_1;\n", "")]},
     {'name': 'critical path sums the children instead of max', 'expect': 'C18.3',
      'edits': [(INL, "            t_inf = dr_max_clock(s->info.t_inf + c->info.t_inf, t_inf);", "            t_inf = t_inf + c->info.t_inf;")]},
+    {'name': 'other-cont edges not counted (defect D14 reverted)', 'expect': 'C18.4',
+     'edits': [(INL, "              s->info.logical_edge_counts[dr_dag_edge_kind_other_cont]++;\n", "")]},
+    {'name': 'end edges counted one level up (defect D15 reverted)', 'expect': 'C18.4',
+     'edits': [(INL, "            s->info.logical_edge_counts[dr_dag_edge_kind_end]++;\n", ""),
+               (INL, "              s->info.logical_edge_counts[dr_dag_edge_kind_wait_cont]++;\n",
+                "              s->info.logical_edge_counts[dr_dag_edge_kind_wait_cont]++;\n              s->info.logical_edge_counts[dr_dag_edge_kind_end] += x->info.n_child_create_tasks;\n")]},
+    {'name': 'enumerator emits the end kind between chain elements (seed C18/m2)', 'expect': 'C18.4',
+     'edits': [('src/profiler/dr_dump.c', "\tcase dr_dag_edge_kind_other_cont:\n\t  dr_pi_dag_add_edge(e, E_lim, t->info.in_edge_kind, ",
+                "\tcase dr_dag_edge_kind_other_cont:\n\tcase dr_dag_edge_kind_end:\n\t  dr_pi_dag_add_edge(e, E_lim, t->info.in_edge_kind, "),
+               ('src/profiler/dr_dump.c', "\tcase dr_dag_edge_kind_end:\n\t  dr_pi_dag_add_edge(e, E_lim, dr_dag_edge_kind_wait_cont, \n\t\t\t     s - T, t - T);\n\t  break;\n", "")]},
+    {'name': 'wait-cont counted twice per section', 'expect': 'C18.4',
+     'edits': [(INL, "              s->info.logical_edge_counts[dr_dag_edge_kind_wait_cont]++;", "              s->info.logical_edge_counts[dr_dag_edge_kind_wait_cont] += 2;")]},
+    {'name': 'summary takes the in-edge kind of its last element (seed C18/m1)', 'expect': 'C18.4',
+     'edits': [(INL, "s->info.in_edge_kind = first->info.in_edge_kind;", "s->info.in_edge_kind = last->info.in_edge_kind;")]},
+    {'name': 'dr_calc_edges assigns instead of adding', 'expect': 'C18.4',
+     'edits': [('src/profiler/gen_stat.c', "EDGE_COUNTS(k, nw, nw) += t->info.logical_edge_counts[k];", "EDGE_COUNTS(k, nw, nw) = t->info.logical_edge_counts[k];")]},
+    {'name': 'other interval opens a section (seed C18/m3)', 'expect': 'C18.5',
+     'edits': [(INL, "      /* ensure t has a session */\n      dr_dag_node * s = dr_task_active_node(t);\n      /* add a new node as a child of s */\n      dr_dag_node * i\n",
+                "      /* ensure t has a session */\n      dr_dag_node * s = dr_task_ensure_section(t, wss->freelist);\n      /* add a new node as a child of s */\n      dr_dag_node * i\n")]},
+    {'name': 'return from other marks the successor as create-cont', 'expect': 'C18.5',
+     'edits': [(INL, "t->info.in_edge_kind = dr_dag_edge_kind_other_cont;", "t->info.in_edge_kind = dr_dag_edge_kind_create_cont;")]},
     {'name': 'edge counts of created tasks dropped', 'expect': 'C18.3',
      'edits': [(INL, "            for (k = 0; k < dr_dag_edge_kind_max; k++) {\n              s->info.logical_edge_counts[k] += c->info.logical_edge_counts[k];\n            }\n", "")]},
 ]
